@@ -8,8 +8,11 @@ ENV = "GOFLAGS=-mod=mod GOPROXY=off GOSUMDB=off GOTOOLCHAIN=local"
 
 # id -> (built?, category, technique, level text, level note, design ref)
 CHECKS = {
- "C01": (False, "exploration", "property-based testing: generated datasets x grammar-directed filters against an independent reference evaluator, plus metamorphic route equivalence",
-         "", "", "DESIGN.md §3 C01"),
+ "C01": (True, "exploration",
+         "property-based testing (rapid): generated datasets x grammar- and type-directed filters against an independent three-valued reference evaluator; metamorphic route equivalence (QueryIds / QueryIdsC / IterateIds / ast-only evaluation) and seek-shortcut rewrites",
+         "Every generated (dataset, filter) pair is answered by the engine through four routes and compared, in both directions (nothing omitted, nothing extra, count exact), with a reference evaluator written from the property statement; atoms that can take the index-seek shortcut are re-run in an equivalent non-seekable spelling. Covers every comparison operator x operand type x coercion class of the generator's table, set functions over direct/dotted/fk sets, map elements, sub-queries, schema variants. Sampling with small universes: a defect needing a constant or nesting depth outside the generator is out of reach.",
+         "Trusts the reference evaluator (kit/ref.go), the dataset writer (TypedBucket setters, as in boltz/query_test.go) and bbolt. Rows whose answer the property does not pin down (listed in DESIGN.md §9) evaluate to Unknown in the reference and are not asserted.",
+         "DESIGN.md §3 C01"),
  "C11": (True, "exploration",
          "property-based testing (rapid) with a round-trip oracle and an end-to-end query oracle; native go fuzzing of the codec in the thorough tier",
          "Generated strings over the property's alphabet (biased to adjacent backslash/letter/quote patterns) are quoted, parsed back and used in =, !=, in, not in, contains, not contains queries over rows holding the string, near-misses and null, through the in-memory symbol route and a bolt store; every answer is compared with the set computed directly from the intended string. Sampling, not proof: a defect needing a string outside the alphabet/length bound can be missed.",
